@@ -71,6 +71,23 @@ def findings():
     probe("pow_minus1_requires_psd", "pow(A, -1, Eigh()|Lanczos()) translates the algorithm into Cholesky / CG: AssertionError for a SelfAdjoint operator that is not declared PSD "
           "(Eigh and Lanczos themselves only need SelfAdjoint)", p_m1e, "pow(SelfAdjoint(Dense(diag(1,-2))),-1,Eigh()) @ ones(2)")
 
+    def p_lbr():
+        A = cola.PSD(ops.Dense(np.diag([.5, 1., 2., 3.])))
+        X = np.stack([np.eye(4)[:, 0], np.ones(4)], 1)
+        Y = np.asarray(exp(A, Lanczos()) @ X)
+        ref = np.diag(np.exp([.5, 1., 2., 3.])) @ X
+        return not (np.abs(Y - ref).max() <= 1e-8), Y.tolist()
+    probe("lanczos_batch_breakdown_nan", "a Krylov-Lanczos matrix function applied to several columns at once fails when one column's Krylov space is exhausted EXACTLY while "
+          "another continues: lanczos keeps normalising the exhausted element (0/0), T fills with NaN and eigh raises LinAlgError "
+          "(C14 lanczos_batch_shared_stop seen through LanczosUnary)", p_lbr, "exp(PSD(Dense(diag(.5,1,2,3))),Lanczos()) @ [e0, ones]")
+
+    def p_lz():
+        A = cola.PSD(ops.Dense(np.diag([.5, 1., 2., 3.])))
+        Y = np.asarray(exp(A, Lanczos()) @ np.zeros((4, 1)))
+        return not (np.abs(Y).max() <= 1e-12), Y.tolist()
+    probe("lanczos_zero_operand_nan", "a Lanczos matrix function applied to a zero vector (or an operand with a zero column) returns NaN instead of 0: lanczos divides the "
+          "start vector by its norm", p_lz, "exp(PSD(Dense(diag(.5,1,2,3))),Lanczos()) @ zeros((4,1))")
+
     def p_ident():
         y = np.asarray(pow(ops.Identity((2, 2), np.float64), 2).to_dense())
         return not np.allclose(y, np.eye(2)), y.tolist()
@@ -433,6 +450,82 @@ def c05_region(u, under=False):
     return any(c05_region(x, False) for x in kids(u))
 
 
+def composite(rnd, g, cls, cplx):
+    """structural operators whose factors mix Identity / ScalarMul / Diagonal with dense ones (3-4 factors, at least one Identity and at
+    least two non-identity factors): Kronecker, KronSum (Hermitian positive definite) and Product (general, positive spectrum).
+    Returns (builder(dt) -> cola operator, dense matrix, None, n)."""
+    import cola
+    from cola import ops
+
+    def dense_f(q):
+        lam = np.array(L.separated(rnd, q, lo=0.5, gap=0.3, grow=1.3))
+        Q = L.rand_unitary(g, q, cplx)
+        S = (Q * lam) @ Q.conj().T
+        return ("dense", (S + S.conj().T) / 2)
+
+    def diag_f(q):
+        return ("diag", np.array([rnd.uniform(0.5, 2.5) for _ in range(q)]))
+
+    def scal_f(q):
+        return ("scal", (rnd.uniform(0.5, 2.5), q))
+    if cls == "prod3":
+        q = rnd.randint(2, 4)
+        facs = [dense_f(q), rnd.choice([diag_f, scal_f])(q), ("ident", q)]
+        if rnd.random() < 0.5:
+            facs.append(rnd.choice([diag_f, scal_f, dense_f])(q))
+        rnd.shuffle(facs)
+    else:
+        for _ in range(100):
+            sizes = [rnd.randint(1, 3) for _ in range(rnd.choice([3, 3, 4]))]
+            if 4 <= int(np.prod(sizes)) <= 16:
+                break
+        kinds = ["ident", "dense", rnd.choice(["dense", "diag", "scal"])] + [rnd.choice(["ident", "dense", "diag", "scal"]) for _ in sizes[3:]]
+        rnd.shuffle(kinds)
+        facs = [dict(ident=lambda q: ("ident", q), dense=dense_f, diag=diag_f, scal=scal_f)[kd](q) for kd, q in zip(kinds, sizes)]
+
+    def fdense(f):
+        kd, v = f
+        if kd == "ident":
+            return np.eye(v)
+        if kd == "diag":
+            return np.diag(v)
+        if kd == "scal":
+            return v[0] * np.eye(v[1])
+        return v
+    Ds = [fdense(f).astype(np.complex128) for f in facs]
+    if cls == "prod3":
+        M = Ds[0]
+        for d in Ds[1:]:
+            M = M @ d
+    else:
+        M = Ds[0]
+        for d in Ds[1:]:
+            M = np.kron(M, d) if cls == "kron3" else np.kron(M, np.eye(d.shape[0])) + np.kron(np.eye(M.shape[0]), d)
+
+    def build(dt):
+        ndt = getattr(np, dt)
+        cp = dt in ("complex64", "complex128")
+
+        def cast(a):
+            a = np.asarray(a)
+            return a.astype(ndt) if cp else a.real.astype(ndt)
+
+        def fop(f):
+            kd, v = f
+            if kd == "ident":
+                return ops.Identity((v, v), ndt)
+            if kd == "diag":
+                return ops.Diagonal(cast(v))
+            if kd == "scal":
+                return ops.ScalarMul(float(v[0]), (v[1], v[1]), ndt)
+            return cola.PSD(ops.Dense(cast(v)))
+        fs = [fop(f) for f in facs]
+        if cls == "prod3":
+            return ops.Product(*fs)
+        return cola.PSD((ops.Kronecker if cls == "kron3" else ops.KronSum)(*fs))
+    return build, M, None, M.shape[0]
+
+
 def int_case(alpha):
     """the shortcut pow takes (harness side, only to route the case; the decision itself is modelled by pow_case)"""
     k = int(np.round(alpha))
@@ -647,7 +740,10 @@ def run(ctx):
         n = rnd.randint(2, ctx.budget(5, 7))
         # spectrum classes: Hermitian declared PSD / declared SelfAdjoint only (Auto then takes the general Eig rule) / general
         # diagonalisable; "_rep" = REPEATED eigenvalues (multiplicity 2-3) with eigenspaces in general position; "kronsq" = S (x) S
-        cls = rnd.choice(["psd", "psd", "gen", "psd0", "psd_rep", "sa", "sa_rep", "sa_rep", "gen_rep", "kronsq"])
+        cls = rnd.choice(["psd", "psd", "gen", "psd0", "psd_rep", "sa", "sa_rep", "sa_rep", "gen_rep", "kronsq",
+                          "kron3", "kron3", "ksum3", "prod3", "psd_blocks"])
+        if cls == "prod3" and fn.domain != "any":
+            cls = "kron3"
         if cls == "psd0" and fn.domain != "any":
             cls = "psd"
         if cls == "kronsq" and fn.name in ("pow", "sqrt", "isqrt"):
@@ -655,11 +751,27 @@ def run(ctx):
         alg = rnd.choice(["Auto", "none", "Eig", "Eig", "Eigh", "Lanczos", "Lanczos", "Arnoldi", "Arnoldi"])
         if alg in ("Eigh", "Lanczos") and cls.startswith("gen"):
             cls = "sa_rep" if cls.endswith("rep") else "psd"
+        if alg in ("Eigh", "Lanczos") and cls == "prod3":
+            cls = "kron3"
+        if alg in ("Lanczos", "Arnoldi") and ((cls == "kron3" and fn.name in ("pow", "sqrt", "isqrt")) or (cls == "ksum3" and fn.name == "exp")):
+            alg = "Auto"      # with an algorithm argument these take the factor-wise rule: the Krylov routine would run per factor (stream A covers the rule)
         if cls == "psd0" and alg in ("Lanczos", "Arnoldi") and "krylov_mask_kills_f0" in present and complex(fn.np(np.array([0.0]))[0]) != 0:
             bump(skipped, "krylov_mask_kills_f0")
             cls = "psd"
         herm = not cls.startswith("gen")
-        if cls == "kronsq":
+        comp_build = None
+        if cls in ("kron3", "ksum3", "prod3"):
+            comp_build, M, lam, n = composite(rnd, g, cls, cplx)
+        elif cls == "psd_blocks":
+            # two decoupled Hermitian blocks: basis vectors and block-supported operand columns have a small Krylov grade
+            n1, n2 = rnd.randint(1, 3), rnd.randint(2, 3)
+            n = n1 + n2
+            lam = np.array(sorted(L.separated(rnd, n, lo=0.3, gap=0.25, grow=1.3)))
+            rnd.shuffle(lam)
+            Q1, Q2 = L.rand_unitary(g, n1, cplx), L.rand_unitary(g, n2, cplx)
+            B1, B2 = (Q1 * lam[:n1]) @ Q1.conj().T, (Q2 * lam[n1:]) @ Q2.conj().T
+            M = sl.block_diag((B1 + B1.conj().T) / 2, (B2 + B2.conj().T) / 2)
+        elif cls == "kronsq":
             q = rnd.choice([2, 2, 3])
             n = q * q
             lam_s = np.array(sorted(L.separated(rnd, q, lo=0.5, gap=0.3, grow=1.3)))
@@ -721,7 +833,9 @@ def run(ctx):
         if fn.name == "pow" and isint and kk == -1 and alg in ("Eigh", "Lanczos") and cls.startswith("sa") and "pow_minus1_requires_psd" in present:
             bump(skipped, "pow_minus1_requires_psd")
             continue
-        if cls == "kronsq":
+        if comp_build is not None:
+            A = comp_build(dt)
+        elif cls == "kronsq":
             Sd = Sq.astype(getattr(np, dt)) if cplx else Sq.real.astype(getattr(np, dt))
             A = cola.PSD(ops.Kronecker(cola.PSD(ops.Dense(Sd)), cola.PSD(ops.Dense(Sd))))
         else:
@@ -730,12 +844,57 @@ def run(ctx):
                 A = cola.PSD(A)
             elif cls.startswith("sa"):
                 A = cola.SelfAdjoint(A)
-        k = rnd.choice([1, 2])
-        X = (g.standard_normal((n, k)) + (1j * g.standard_normal((n, k)) if cplx else 0)).astype(getattr(np, dt))
-        case_js = dict(stream="C", M=M.tolist() if not cplx else [[str(x) for x in r] for r in M], cls=cls, dt=dt, alg=algspec, cap=cap, **fn.js())
+        # operand: random columns / columns of mixed Krylov grade (basis vectors, eigenvectors, zero, duplicates next to generic ones) / the identity
+        okind = rnd.choice(["random", "random", "mixed", "mixed", "identity"])
+        randcol = lambda: g.standard_normal(n) + (1j * g.standard_normal(n) if cplx else 0)
+        if okind == "random":
+            k = rnd.choice([1, 2])
+            cols = [randcol() for _ in range(k)]
+        elif okind == "identity":
+            cols = list(np.eye(n))
+        else:
+            evecs = (np.linalg.eigh(M.astype(np.complex128)) if herm else np.linalg.eig(M.astype(np.complex128)))[1]
+            structured_zeros = cls in ("psd_blocks", "kron3", "ksum3", "prod3")
+            pool = ["basis", "eigvec", "eigvec2", "zero", "dup", "random"]
+            cols = [randcol()]
+            for _ in range(rnd.randint(1, 3)):
+                kd = rnd.choice(pool)
+                if kd == "basis":
+                    cols.append(np.eye(n)[:, rnd.randrange(n)] + 0 * cols[0])
+                elif kd == "eigvec":
+                    cols.append(evecs[:, rnd.randrange(n)] * (1 if cplx else 1))
+                elif kd == "eigvec2":
+                    cols.append(evecs[:, rnd.randrange(n)] + 0.5 * evecs[:, rnd.randrange(n)])
+                elif kd == "zero":
+                    cols.append(np.zeros(n) + 0 * cols[0])
+                elif kd == "dup":
+                    cols.append(cols[rnd.randrange(len(cols))].copy())
+                else:
+                    cols.append(randcol())
+            if not cplx:
+                cols = [np.real(c_) if np.abs(np.imag(c_)).max() < 1e-12 else None for c_ in cols]
+                cols = [c_ for c_ in cols if c_ is not None]      # complex eigenvectors of a real operator are not real operands
+            rnd.shuffle(cols)
+        if alg == "Lanczos" and "lanczos_zero_operand_nan" in present:
+            nz = [c_ for c_ in cols if np.abs(c_).max() > 0]
+            if len(nz) < len(cols):
+                bump(skipped, "lanczos_zero_operand_nan")
+            cols = nz or [randcol()]
+        if alg == "Lanczos" and "lanczos_batch_breakdown_nan" in present and len(cols) > 1:
+            # exact exhaustion of one element: operand columns supported on an exactly decoupled part of the operator
+            exact = lambda c_: (cls in ("psd_blocks", "kron3", "ksum3") and np.count_nonzero(c_) < n) or np.count_nonzero(M @ c_.astype(M.dtype) - (c_.conj() @ (M @ c_.astype(M.dtype))) / (c_.conj() @ c_) * c_) == 0
+            keep = [c_ for c_ in cols if not exact(c_)]
+            if len(keep) < len(cols):
+                bump(skipped, "lanczos_batch_breakdown_nan")
+            cols = keep or [randcol()]
+        X = np.stack(cols, 1).astype(getattr(np, dt))
+        k = X.shape[1]
+        case_js = dict(stream="C", M=M.tolist() if not cplx else [[str(x) for x in r] for r in M], cls=cls, dt=dt, alg=algspec, cap=cap, operand=okind,
+                       X=X.tolist() if not cplx else [[str(x) for x in r] for r in X], **fn.js())
         evals += 1
         bump(hist, f"C:{fn.name}{'' if fn.alpha is None else fn.alpha}:{alg}" + (f":{cap}" if cap else ""))
         bump(hist, "C:class:" + cls + ":" + alg)
+        bump(hist, "C:operand:" + okind + ":" + alg)
         distinct.add(core.digest(case_js))
         try:
             F = fn.cola(A, make_alg(algspec))
@@ -748,6 +907,13 @@ def run(ctx):
             continue
         D = M.astype(np.complex128)
         bad = []
+        if okind == "identity" and X.shape == (n, n) and np.array_equal(X, np.eye(n)):
+            try:
+                Fd = np.asarray(F.to_dense())
+                if not (Fd.shape == Y.shape and np.abs(Fd - Y).max() <= 1e-9 * max(1.0, float(np.abs(Y).max()))):
+                    bad.append("f(A).to_dense() differs from f(A) @ I")
+            except Exception as e:
+                bad.append(f"f(A).to_dense() raised {type(e).__name__}: {str(e)[:120]}")
         shortcut = fn.name == "pow" and isint and (kk == 0 or 0 < kk < 10 or kk == -1)
         krylov = alg in ("Lanczos", "Arnoldi") and not shortcut
         complete = not (krylov and cap == "below")
@@ -798,7 +964,7 @@ def run(ctx):
             except Exception as e:
                 mism.append(dict(oracle_fail=False, case=case_js, harness_error=f"Krylov oracle data: {type(e).__name__}: {e}"))
         condV = 1.0
-        if not krylov and not shortcut and not (alg == "Eigh" or (alg in ("Auto", "none") and (cls.startswith("psd") or cls == "kronsq"))):
+        if not krylov and not shortcut and not (alg == "Eigh" or (alg in ("Auto", "none") and (cls.startswith("psd") or cls in ("kronsq", "kron3", "ksum3")))):
             condV = float(np.linalg.cond(np.linalg.eig(np.asarray(A.to_dense()))[1]))      # the general eig rule: conditioning of LAPACK's eigenbasis
             if condV > 1e4:
                 bump(skipped, "ill_conditioned_eigenbasis")
@@ -811,7 +977,7 @@ def run(ctx):
             # dense rule at the root = a ULeaf: reuse the rational model
             rule = "Auto" if alg in ("Auto", "none") else alg
             orc = Oracles(fn, dt, rule, present)
-            u = dict(k="Leaf", M=M, psd=cls.startswith("psd") or cls == "kronsq")
+            u = dict(k="Leaf", M=M, psd=cls.startswith("psd") or cls in ("kronsq", "kron3", "ksum3"))
             try:
                 term = ucoq(u, dt, orc, False)
             except Exception as e:
@@ -828,6 +994,30 @@ def run(ctx):
             uterms.append(f"mkucase {n} {term} (CUnary MGeneric) {tab} {k} {L.qmat(X)} {L.qc_lit((1e-9 * sc * min(orc.cond, 1e4) * n) ** 2)} {L.qmat(Y)}")
             auterms.extend(orc.auto_obs)
             umeta.append(dict(case=case_js, bad=[], got={}))
+
+    # ---------------- D. large PSD operators under the Krylov rules: sizes / iteration counts beyond 100, 128, 256 (windows, periods, block sizes)
+    for n in ([rnd.randint(101, 112), rnd.randint(126, 140), rnd.randint(200, 262)] + ([rnd.randint(101, 300) for _ in range(7)] if ctx.tier == "thorough" else [])):
+        fn = rnd.choice([FN("exp"), FN("sqrt", 0.5), FN("user"), FN("log"), FN("pow", 2.5)])
+        lam = np.sort(g.uniform(0.5, 3.0, n))
+        Q = L.rand_unitary(g, n, False)
+        M = (Q * lam) @ Q.T
+        M = (M + M.T) / 2
+        A = cola.PSD(ops.Dense(M))
+        X = np.stack([g.standard_normal(n), g.standard_normal(n), Q[:, 0] + Q[:, 1], np.eye(n)[:, 3]], 1)
+        ref = fn.ref(M.astype(np.complex128)) @ X
+        for algspec in (dict(cls="Lanczos", kwargs={}), dict(cls="Lanczos", kwargs=dict(max_iters=n)), dict(cls="Arnoldi", kwargs=dict(max_iters=n + 5))):
+            case_js = dict(stream="D", n=n, alg=algspec, spectrum="uniform in [0.5, 3], random orthogonal eigenbasis", **fn.js())
+            evals += 1
+            bump(hist, f"D:large:{algspec['cls']}:n>{100 if n <= 128 else (128 if n <= 256 else 256)}")
+            distinct.add(core.digest(dict(case_js, m00=float(M[0, 0]))))
+            try:
+                Y = np.asarray(fn.cola(A, make_alg(algspec)) @ X)
+            except Exception as e:
+                mism.append(dict(oracle_fail=True, case=case_js, got=f"{type(e).__name__}: {str(e)[:200]}", failed_clauses=["raised on an input the model accepts"]))
+                continue
+            err = float(np.abs(Y - ref).max() / np.abs(ref).max())
+            if not err <= 1e-7:
+                mism.append(dict(oracle_fail=True, case=case_js, failed_clauses=[f"|F@X - f(A)@X| = {err:.3g} (relative)"], got=dict(FX=str(Y[:3].tolist())[:200])))
 
     # ---------------- in-Coq comparison
     fails = set()
